@@ -28,7 +28,7 @@ def shapes():
             B = 1
             C = 2
         st = data.StructLayout({"p": 1, "q": signed(2)})
-        _SH = {"u1": (1, (None, 1)), "s2": (signed(2), (None, -1)), "r3": (range(3), (None, 2)),
+        _SH = {"u0": (unsigned(0), (None, None)), "u1": (1, (None, 1)), "s2": (signed(2), (None, -1)), "r3": (range(3), (None, 2)),
                "en": (E, (None, E.C)), "st": (st, (None, {"p": 1, "q": -1}))}
     return _SH
 
@@ -866,31 +866,72 @@ def part_corrupt(tree, out, bases):
 
 
 # ---------------------------------------------------------------------------------------------- part 4: metadata
-def part_meta(tree, out, both=True):
+_JSONSCHEMA = None
+
+
+def _jsonschema():
+    """the `jsonschema` package if importable (it is NOT installed in /venv at the time of writing; amaranth.lib.meta
+    itself uses jschon) -- the independent validation is then done by R.validate_json alone"""
+    global _JSONSCHEMA
+    if _JSONSCHEMA is None:
+        try:
+            import jsonschema
+            _JSONSCHEMA = jsonschema
+        except ImportError:
+            _JSONSCHEMA = False
+    return _JSONSCHEMA
+
+
+def part_meta(tree, out, both=True, explicit_validate=False):
     from amaranth.lib import wiring as W
     c = R.canon(tree)
     try:
         sig = build_sig(tree)
     except Exception:
         return
+    zero = sum(1 for l in R.leaves(tree) if l[2] == 0)
     for fl in ((False, True) if both else (False,)):
         tag = "flip" if fl else "id"
         out.add("evaluations")
         out.add("metadata_documents")
         try:
             comp = W.Component(sig.flip() if fl else sig)
-            doc = comp.metadata.as_json()
             want = R.metadata(tree, fl)
+            # independent validation of the EXPECTED document (every leaf, width 0 included) against the published
+            # schema object, without amaranth's own validate()
+            step = "own-validator"
+            errs = R.validate_json(want, W.ComponentMetadata.schema)
+            js = _jsonschema()
+            if js:
+                step = "jsonschema"
+                errs += [e.message for e in js.Draft202012Validator(W.ComponentMetadata.schema).iter_errors(want)]
+                out.add("metadata_validated_with_jsonschema_package")
+            if errs:
+                out.viol(f"meta:{tag}:{c}:schema", f"the metadata document of {c} ({tag}) does not validate against the published "
+                         f"schema object: {errs[:3]}", tree, "meta")
+            step = "as_json"
+            doc = comp.metadata.as_json()
             if doc != want:
                 out.viol(f"meta:{tag}:{c}:content", f"metadata of component with signature {c} ({tag}) = {doc}, expected {want}",
                          tree, "meta")
-            errs = R.validate_json(doc, W.ComponentMetadata.schema)
-            if errs:
-                out.viol(f"meta:{tag}:{c}:schema", f"metadata of {c} ({tag}) does not validate against the published schema: "
-                         f"{errs[:3]}", tree, "meta")
+            if explicit_validate:
+                step = "validate"
+                W.ComponentMetadata.validate(want)
+                out.add("metadata_explicit_validate_calls")
             out.add("metadata_leaves", len(R.leaves(tree)))
+            out.add("metadata_zero_width_leaves", zero)
         except Exception as e:
-            out.viol(f"meta:{tag}:{c}:{ename(e)}", f"metadata of component with signature {c} ({tag}) raised {e!r}", tree, "meta")
+            out.viol(f"meta:{tag}:{c}:{step}:{ename(e)}", f"metadata of component with signature {c} ({tag}): {step} raised {e!r}",
+                     tree, "meta")
+
+
+def part_schema(out):
+    """facts of the published schema object against the reference"""
+    from amaranth.lib import wiring as W
+    out.add("evaluations")
+    for ptr, got, want in R.schema_fact_errors(W.ComponentMetadata.schema):
+        out.viol(f"schema:{ptr}", f"ComponentMetadata.schema at {ptr} is {got!r}, the published schema has {want!r}", [], "schema")
+    out.add("schema_facts_checked", len(R.SCHEMA_FACTS))
 
 
 # ---------------------------------------------------------------------------------------------- driver
@@ -898,6 +939,9 @@ def check_trees(task):
     trees, opts = task
     warnings.simplefilter("ignore")
     out = Out_()
+    if "schema" in opts["parts"]:
+        part_schema(out)
+        return out.result()
     for tree in trees:
         if "sig" in opts["parts"]:
             part_sig(tree, out)
@@ -910,7 +954,8 @@ def check_trees(task):
         if "corrupt" in opts["parts"]:
             part_corrupt(tree, out, opts["bases"])
         if "meta" in opts["parts"] and len(R.node_paths(tree)) <= opts.get("meta_max_members", 99):
-            part_meta(tree, out, opts.get("meta_both", True) or len(tree) == 1 or any(n["k"] == "s" for _, n in tree))
+            part_meta(tree, out, opts.get("meta_both", True) or len(tree) == 1 or any(n["k"] == "s" for _, n in tree),
+                      opts.get("meta_explicit_validate", False))
     return out.result()
 
 
@@ -968,6 +1013,13 @@ def run(rep):
     tasks += [(ch, dict(cm_opts, constmix_k=(3,))) for ch in chunks(cm, 4)]
     tasks += [(ch, dict(cm_opts, constmix_k=(4,))) for ch in chunks(cm4, 1)]
     rep.setcov("constmix_trees", {"k3": len(cm), "k4": len(cm4)})
+    # zero-width leaves: signature + metadata parts only (value-based corruptions are meaningless at width 0)
+    zw = R.zero_width_family()
+    zw_opts = {"parts": ["sig", "meta"], "meta_both": True, "meta_explicit_validate": True}
+    tasks += [(ch, zw_opts) for ch in chunks(zw, 8)]
+    tasks.append(([], {"parts": ["schema"]}))
+    rep.setcov("zero_width_trees", len(zw))
+    rep.setcov("jsonschema_package_importable", bool(_jsonschema()))
     tasks = rotate(tasks, rep.seed)
     for part in pmap(check_trees, tasks, rep.procs):
         rep.merge(part)
@@ -1004,7 +1056,9 @@ def run(rep):
                "nothing added); every single-point corruption (missing "
                "member, width, init, second output, constants, object-level width/init, dimensions) of every member / leaf of "
                "every interface; component metadata of sig and sig.flip() compared with the expected document and the "
-               "published schema. non-trivial = tree has a signature member or an array dimension")
+               "published schema (own validator; `jsonschema` package too when importable); a zero-width family (each port in turn "
+               "unsigned(0)) through the signature and metadata parts incl. ComponentMetadata.validate(); facts of the schema "
+               "object vs the published document. non-trivial = tree has a signature member or an array dimension")
     if rep.violations:
         return      # a failing run is reported as such; vacuity is only a concern for a passing run
     for key in ("signatures", "tuples", "connect_accepted", "connect_rejected", "simulations", "permutations",
@@ -1012,7 +1066,8 @@ def run(rep):
                 "metadata_leaves", "corrupt_missing", "corrupt_width", "corrupt_init", "corrupt_second-output",
                 "corrupt_const-differs", "corrupt_const-vs-signal", "corrupt_obj-width", "corrupt_obj-init", "corrupt_dims",
                 "objects_created", "nested_signature_checks", "route_pairs", "constmix_expect_accept", "constmix_expect_error",
-                "constmix_signal_input_beside_constant_input", "idle_tuples", "idle_leaves", "corrupt_idle-width", "corrupt_idle-init", "corrupt_idle-obj-width",
+                "constmix_signal_input_beside_constant_input", "metadata_zero_width_leaves", "metadata_explicit_validate_calls",
+                "schema_facts_checked", "idle_tuples", "idle_leaves", "corrupt_idle-width", "corrupt_idle-init", "corrupt_idle-obj-width",
                 "corrupt_idle-obj-init"):
         rep.require(rep.cov.get(key, 0) > 0, f"{key} never exercised")
     rep.require(rep.cov["trees_depth3"] > 0, "no tree with two nested signature levels")
@@ -1024,6 +1079,6 @@ def replay(payload):
     tree = R.norm(payload["tree"])
     opts = {"parts": [payload["part"]], "variations": list(VARIATIONS),
             "bases": ["k2:T+T.flip", "k3:rr", "k2:T+flipped(T)", "k2:idle-odd", "k3:idle-even", "k2:idle-even"],
-            "all_perm_sims": True, "meta_both": True, "route_sims": 6, "routes_flat": True}
-    res = check_trees(([tree], opts))
+            "all_perm_sims": True, "meta_both": True, "route_sims": 6, "routes_flat": True, "meta_explicit_validate": True}
+    res = check_trees(([tree] if payload["part"] != "schema" else [], opts))
     return [v["what"] for v in res["violations"] if v["sig"] == payload["sig"]]
